@@ -252,6 +252,14 @@ impl<I: Ip> TorrentMap<I> {
     }
 }
 
+#[cfg(aquatic_verif)]
+impl<I: Ip> TorrentMap<I> {
+    /// Number of torrent entries held (observed by simulation harnesses)
+    pub fn verif_num_torrents(&self) -> usize {
+        self.torrents.len()
+    }
+}
+
 pub enum TorrentData<I: Ip> {
     Small(SmallPeerMap<I>),
     Large(LargePeerMap<I>),
